@@ -308,6 +308,31 @@ def hsetCover (hk : Nat) (s : HSetS) (op : String) (args : List Int) : List Stri
     [s!"ins:chainlen{min ch.length 3}"]
   | _, _ => []
 
+/-- Functional model vs literal register-level transcription on one hash-set operation. -/
+def hsetSelfCheck (hk : Nat) (s : HSetS) (op : String) (args : List Int) : Option String :=
+  let d : HRec Nat := ⟨0, 0, 0⟩
+  let h := hashOf hk
+  let img := s.image 0
+  match op, args with
+  | "ins", [v] =>
+    match s.insert h v.toNat with
+    | .ok (s', r) =>
+      let (i', ir) := HImp.insert h d img v.toNat
+      if s'.image 0 == i' && r == ir then none else some s!"literal insert gives {ir}, functional {r}; images {if s'.image 0 == i' then "equal" else "differ"}"
+    | .error _ => none
+  | "rem", [v] =>
+    match s.remove h v.toNat with
+    | .ok (s', r) =>
+      let (i', ir) := HImp.remove h d img v.toNat
+      if s'.image 0 == i' && r == ir then none else some s!"literal remove gives {ir}, functional {r}; images {if s'.image 0 == i' then "equal" else "differ"}"
+    | .error _ => none
+  | "has", [v] =>
+    match s.contains h v.toNat with
+    | .ok r => if r == HImp.contains h d img v.toNat then none else some "contains differs"
+    | .error _ => none
+  | "iter", [] => if s.iter == HImp.iter d img then none else some "iteration differs"
+  | _, _ => none
+
 def hsetSys (hk : Nat) (f : HFmt) : Sys HSetS where
   decode := fun bs =>
     match f.ofBytes bs with
@@ -330,6 +355,7 @@ def hsetSys (hk : Nat) (f : HFmt) : Sys HSetS where
   eq := fun a b => a == b
   show_ := showHSet
   cover := hsetCover hk
+  selfCheck := fun s op args => if s.slots ≤ 64 then hsetSelfCheck hk s op args else none
 
 /-! ### Array sets -/
 
